@@ -200,6 +200,10 @@ class TileManager(object):
         for tile in tiles:
             if self._is_tile_missing(tile, cache_only, dimensions=dimensions):
                 uncached_tiles.append(tile)
+            elif tile.is_missing():
+                # the tile was stored by a concurrent request after load_tiles
+                # looked for it: load it now instead of answering without image
+                self.cache.load_tile(tile, with_metadata, dimensions=dimensions)
 
         if uncached_tiles:
             creator = self.creator(dimensions=dimensions)
